@@ -4,12 +4,12 @@ PROP = dict(
         level="model_checking", shards=1,
         targets=[
             dict(name="sph", pkg="internal/ackhandler", test="TestVerifC14Sph", files=["mc/c14/sph/*.go"],
-                 parts=["amp-full", "amp-core", "amp-lean"]),
+                 parts=["amp-full", "amp-core", "amp-lean", "amp-deep"]),
         ],
         level_text="TODO",
         level_note="TODO",
         technique="explicit-state BFS over the real implementation with reference-model oracle; bounded-exhaustive input enumeration",
-        deadline=dict(quick=60, thorough=280),
+        deadline=dict(quick=60, thorough=600),
         rule="TODO",
         assumptions=[],
     )
